@@ -409,3 +409,183 @@ async fn cursor_enum_quick() {
 async fn cursor_enum_thorough() {
 	cursor_enum_impl(3, 12, 3, true, "cursor_enum_thorough").await;
 }
+
+// ------------------------------------------------------------------------------------------------
+// C04 / C05 bounded check (sequential schedules on the real Tree, real oracle and commit pipeline):
+// first committer wins.  A commit succeeds IFF no transaction that committed after this one began wrote one
+// of its keys; a refused commit gets a conflict / retry error and none of its writes take effect; after every
+// step a fresh reader sees exactly the writes of the commits that succeeded so far, in commit order, and every
+// open read-write transaction still reads its begin-time state of the keys it has not written.
+// Bound (stated): 2 transactions x every interleaving of [begin, write, commit] x every non-empty key subset of
+// {a, b} each x mode {read-write, write-only} (720 schedules); 3 read-write transactions x every interleaving x
+// one key each from {a, b} (13440 schedules).  No real concurrency: every step runs to completion.
+#[derive(Clone, Copy, Debug, PartialEq)]
+enum Step {
+	Begin(usize),
+	Write(usize),
+	Commit(usize),
+}
+
+fn interleavings(n: usize) -> Vec<Vec<Step>> {
+	fn rec(next: &mut Vec<usize>, n: usize, cur: &mut Vec<Step>, out: &mut Vec<Vec<Step>>) {
+		if next.iter().all(|&x| x == 3) {
+			out.push(cur.clone());
+			return;
+		}
+		for i in 0..n {
+			if next[i] < 3 {
+				cur.push(match next[i] {
+					0 => Step::Begin(i),
+					1 => Step::Write(i),
+					_ => Step::Commit(i),
+				});
+				next[i] += 1;
+				rec(next, n, cur, out);
+				next[i] -= 1;
+				cur.pop();
+			}
+		}
+	}
+	let mut out = Vec::new();
+	rec(&mut vec![0; n], n, &mut Vec::new(), &mut out);
+	out
+}
+
+#[tokio::test(flavor = "multi_thread", worker_threads = 2)]
+async fn conflict_enum() {
+	let dir = tempdir::TempDir::new("verif_c04").unwrap();
+	let tree = TreeBuilder::new().with_path(dir.path().to_path_buf()).build().unwrap();
+	let mut cases = 0u64;
+	let mut nontrivial = 0u64;
+	let mut failures: Vec<String> = Vec::new();
+	let mut samples: Vec<String> = Vec::new();
+	let mut prog = 0u64;
+	for n in [2usize, 3] {
+		let scheds = interleavings(n);
+		let keysets: Vec<Vec<Vec<u8>>> = if n == 2 {
+			let opts = [vec![0u8], vec![1u8], vec![0u8, 1u8]];
+			let mut v = Vec::new();
+			for a in &opts {
+				for b in &opts {
+					v.push(vec![a.clone(), b.clone()]);
+				}
+			}
+			v
+		} else {
+			let mut v = Vec::new();
+			for c in 0..8usize {
+				v.push((0..3).map(|i| vec![((c >> i) & 1) as u8]).collect());
+			}
+			v
+		};
+		let modesets: Vec<Vec<Mode>> = if n == 2 { vec![vec![Mode::ReadWrite, Mode::ReadWrite], vec![Mode::ReadWrite, Mode::WriteOnly], vec![Mode::WriteOnly, Mode::ReadWrite], vec![Mode::WriteOnly, Mode::WriteOnly]] } else { vec![vec![Mode::ReadWrite; 3]] };
+		for sched in &scheds {
+			for ks in &keysets {
+				for modes in &modesets {
+					cases += 1;
+					prog += 1;
+					let kname = |k: u8| format!("p{prog:06}_{}", (b'a' + k) as char).into_bytes();
+					// seed value so that reads have something to see
+					{
+						let mut t = tree.begin().unwrap();
+						t.set(kname(0), b"init".to_vec()).unwrap();
+						t.set(kname(1), b"init".to_vec()).unwrap();
+						t.commit().await.unwrap();
+					}
+					let mut model: [Vec<u8>; 2] = [b"init".to_vec(), b"init".to_vec()];
+					let mut txs: Vec<Option<crate::Transaction>> = (0..n).map(|_| None).collect();
+					let mut begin_state: Vec<[Vec<u8>; 2]> = vec![model.clone(); n];
+					// keys written by commits that succeeded after transaction i began
+					let mut dirty_since_begin: Vec<std::collections::HashSet<u8>> = vec![Default::default(); n];
+					let mut bad: Option<String> = None;
+					let mut had_conflict = false;
+					for (si, st) in sched.iter().enumerate() {
+						match *st {
+							Step::Begin(i) => {
+								txs[i] = Some(tree.begin_with_mode(modes[i]).unwrap());
+								begin_state[i] = model.clone();
+								dirty_since_begin[i].clear();
+							}
+							Step::Write(i) => {
+								for &k in &ks[i] {
+									txs[i].as_mut().unwrap().set(kname(k), format!("t{i}").into_bytes()).unwrap();
+								}
+							}
+							Step::Commit(i) => {
+								let mut t = txs[i].take().unwrap();
+								let must_conflict = ks[i].iter().any(|k| dirty_since_begin[i].contains(k));
+								let r = t.commit().await;
+								match (&r, must_conflict) {
+									(Ok(()), false) => {
+										for &k in &ks[i] {
+											model[k as usize] = format!("t{i}").into_bytes();
+											for (j, d) in dirty_since_begin.iter_mut().enumerate() {
+												if j != i {
+													d.insert(k);
+												}
+											}
+										}
+									}
+									(Err(crate::Error::TransactionWriteConflict), true) | (Err(crate::Error::TransactionRetry), true) => {
+										had_conflict = true;
+									}
+									(Ok(()), true) => bad = Some(format!("step {si}: transaction {i} committed although a transaction that committed after it began wrote one of its keys (lost update)")),
+									(Err(e), false) => bad = Some(format!("step {si}: transaction {i} was refused ({e}) although none of its keys was written by a transaction that committed after it began")),
+									(Err(e), true) => bad = Some(format!("step {si}: transaction {i} failed with {e}, expected a conflict or retry error")),
+								}
+							}
+						}
+						if bad.is_some() {
+							break;
+						}
+						// a fresh reader sees exactly the successful commits; open read-write transactions keep their view
+						let fresh = tree.begin().unwrap();
+						for k in 0..2u8 {
+							let got = fresh.get(kname(k)).unwrap().unwrap_or_default();
+							if got != model[k as usize] {
+								bad = Some(format!("after step {si} {:?}: a fresh reader reads {:?} for key {}, the committed state is {:?}", st, String::from_utf8_lossy(&got), (b'a' + k) as char, String::from_utf8_lossy(&model[k as usize])));
+							}
+						}
+						for i in 0..n {
+							if let Some(t) = txs[i].as_ref() {
+								if modes[i] == Mode::WriteOnly {
+									continue;
+								}
+								let wrote = sched[..=si].contains(&Step::Write(i));
+								for k in 0..2u8 {
+									if wrote && ks[i].contains(&k) {
+										continue;
+									}
+									let got = t.get(kname(k)).unwrap().unwrap_or_default();
+									if got != begin_state[i][k as usize] && bad.is_none() {
+										bad = Some(format!("after step {si} {:?}: open transaction {i} reads {:?} for key {}, its begin-time state is {:?}", st, String::from_utf8_lossy(&got), (b'a' + k) as char, String::from_utf8_lossy(&begin_state[i][k as usize])));
+									}
+								}
+							}
+						}
+						if bad.is_some() {
+							break;
+						}
+					}
+					if had_conflict {
+						nontrivial += 1;
+						if samples.len() < 3 && n == 3 {
+							samples.push(format!("\"{:?} keys {:?}\"", sched, ks));
+						}
+					}
+					if let Some(b) = bad {
+						if failures.len() < 5 {
+							failures.push(format!("{{\"schedule\":\"{:?}\",\"keys_written_per_transaction(0=a,1=b)\":\"{:?}\",\"modes\":\"{:?}\",\"mismatch\":{:?}}}", sched, ks, modes, b));
+						}
+					}
+				}
+			}
+		}
+	}
+	println!(
+		"REPLAY-RESULT {{\"driver\":\"transaction::conflict_enum\",\"cases\":{cases},\"distinct_nontrivial\":{nontrivial},\"samples\":[{}],\"failures\":[{}]}}",
+		samples.join(","),
+		failures.join(",")
+	);
+	assert!(failures.is_empty());
+}
